@@ -7,6 +7,16 @@ BASELINE_OFF = ("cd /repo && cargo nextest run --workspace --no-fail-fast --tool
                 "--test-threads 8 --offline || (cd /repo && cargo test --workspace --no-fail-fast --offline)")
 
 CHECKS = {
+ "C12": dict(
+   technique="bounded-exhaustive (8/16-bit integers, chars, full source-variant x target-type table) + proptest random values and tuples; oracle = round trip through Value with an independent canonical form per type, variant observed by pattern matching only",
+   text="Exploration: bool / i8 / u8 / i16 / u16 exhaustively, every 17th char (quick) / all chars (thorough), the full table of 477 source values x 137 target extractions, corner values and random values of every supported type (floats by bit pattern, JSON, chrono / time, decimals, uuid, network types, arrays, vectors), Option<T> of each and tuples of arity 1..12. Run in two build configurations (with and without hashable-value).",
+   note="A Value is inspected only by pattern matching and canonical forms computed in the harness (float bits, decimal digits and scale, instant + offset); sea-query's own equality is never the oracle.",
+   ref="DESIGN.md 4/C12"),
+ "C19": dict(
+   technique="generated programs (proptest strategies over type definitions) compiled against the working tree's derive crate and executed; oracle = independent snake_case implementation cross-checked against heck, attribute semantics from the docs, harness-computed quoting; failures minimised by a greedy spec reducer",
+   text="Exploration over programs: 1 800 (quick) / 38 400 (thorough) generated type definitions (enums and unit structs deriving Iden / IdenStatic, structs under enum_def) with PascalCase / acronym / digit / underscore names, rename / method attributes, flattened variants and enum_def options, plus isolated single-type programs for risky rename strings; every variant's to_string / prepare under four quote styles / as_str is compared with the expected name and with general identifier quoting.",
+   note="The derive crate is built from SQV_REPO (default /repo). Identifiers are ASCII; Rust keywords and raw identifiers are not generated; enum_def fields are decided only where the documented and the stated reading agree.",
+   ref="DESIGN.md 4/C19"),
  "C06": dict(
    technique="bounded-exhaustive condition trees and call pairs + proptest call histories; oracle = reference three-valued evaluator over the spec, compared on all 256 assignments with the SQLite engine and with the evaluation of the predicate as parsed by the MySQL / Postgres grammar transcriptions",
    text="Exploration: every condition tree of depth <= 1 (width <= 3), every depth-2 group of width <= 2 over the depth-1 trees, every pair of condition-adding calls over small trees, and random histories of up to 4 calls with trees up to depth 3, at six sites (SELECT WHERE / HAVING, UPDATE, DELETE, JOIN ON, CASE WHEN), in both parenthesis configurations. Each case is decided on all three-valued assignments of four columns (256 rows): SQLite by the engine (row sets and, for WHERE, the predicate's truth value incl. NULL vs FALSE), MySQL / Postgres by evaluating the parsed predicate.",
